@@ -229,6 +229,9 @@ def run(ctx):
         run_trace(ctx, res, rng.randrange(1 << 30), trace, tracer=(k % 10 == 0))
     res.extra['random_walks'] = walks
     res.sample({'trace': [list(map(str, s)) for s in trace]})
+    # an authentic peer that says unusual things: every handler branch the honest schedules do not take is replayed on the model
+    import rogue
+    rogue.campaign(ctx, res, ctx.scale(8, 150), 50)
     return res
 
 
